@@ -40,7 +40,7 @@ func (c04) Budget(tier string) int {
 	if tier == "thorough" {
 		return 150000
 	}
-	return 1200
+	return 3000
 }
 
 func (c04) Generate(seed uint64, i int, tier string) *Scenario {
